@@ -26,6 +26,8 @@ CONSTANTS
   MAXOPS = 12
   GENBAL = 1000
   BFS = {2}
+  BATCH = "block"
+  OPS = {"dep", "dlg", "und", "dlgx", "undx"}
   GEN = TRUE
 INVARIANTS EmitAtDepth
 CHECK_DEADLOCK FALSE
